@@ -331,7 +331,7 @@ func c08(r *vlib.Run) int {
 	}
 	results, crashes := r.RunBatches("c08api", cases, 60, 14, nil, nil)
 	for _, cr := range crashes {
-		r.Violation("permission-check-crash", map[string]interface{}{"case": typed[cr.Index], "stderr": vlib.Trunc(string(cr.Result.Stderr), 2500)})
+		r.Violation("permission-check-crash", map[string]interface{}{"case": typed[cr.Any()], "stderr": vlib.Trunc(string(cr.Result.Stderr), 2500)})
 	}
 	for i, raw := range results {
 		if raw == nil {
